@@ -7,7 +7,7 @@ from typing import Optional
 from paramiko import Channel
 from paramiko import Transport as _ParamikoTransport
 from paramiko.rsakey import RSAKey
-from paramiko.ssh_exception import AuthenticationException
+from paramiko.ssh_exception import AuthenticationException, SSHException
 
 from scrapli.exceptions import (
     ScrapliAuthenticationFailed,
@@ -221,7 +221,9 @@ class ParamikoTransport(Transport):
         if not self.session:
             raise ScrapliConnectionNotOpened
 
-        with suppress(AuthenticationException):
+        # a failed authentication (AuthenticationException is an SSHException) as well as the
+        # session ending underneath us leaves the session unauthenticated, which `open` reports
+        with suppress(SSHException, EOFError, OSError):
             self.session.auth_password(
                 username=self.plugin_transport_args.auth_username,
                 password=self.plugin_transport_args.auth_password,
@@ -239,15 +241,26 @@ class ParamikoTransport(Transport):
 
         Raises:
             ScrapliConnectionNotOpened: if session is unopened/None
+            ScrapliConnectionError: if the channel, pty or shell cannot be opened
 
         """
         if not self.session:
             raise ScrapliConnectionNotOpened
 
-        self.session_channel = self.session.open_session()
-        self._set_timeout(self._base_transport_args.timeout_transport)
-        self.session_channel.get_pty()
-        self.session_channel.invoke_shell()
+        try:
+            self.session_channel = self.session.open_session()
+            self._set_timeout(self._base_transport_args.timeout_transport)
+            self.session_channel.get_pty()
+            self.session_channel.invoke_shell()
+        except (SSHException, EOFError, OSError) as exc:
+            # paramiko hands back whatever ended the session (EOFError, socket errors) or an
+            # SSHException/ChannelException if the device refused the channel, pty or shell
+            msg = (
+                "failed to open channel, pty or shell; typically means the device closed the "
+                "connection"
+            )
+            self.logger.critical(msg)
+            raise ScrapliConnectionError(msg) from exc
 
     def close(self) -> None:
         self._pre_open_closing_log(closing=True)
